@@ -2015,7 +2015,10 @@ func (a *align) RandSubAlign(length int, consecutive bool) (Alignment, error) {
 		start = rand.Intn(a.Length() - length + 1)
 		for i = 0; i < a.NbSequences(); i++ {
 			seq = a.seqs[i]
-			subalign.AddSequenceChar(seq.name, seq.SequenceChar()[start:start+length], seq.Comment())
+			// a copy of the window: the sub alignment owns its rows, like the non consecutive one
+			tmpseq = make([]uint8, length)
+			copy(tmpseq, seq.SequenceChar()[start:start+length])
+			subalign.AddSequenceChar(seq.name, tmpseq, seq.Comment())
 		}
 	} else {
 		permutation = rand.Perm(a.Length())
